@@ -28,7 +28,7 @@ ASSUMPTIONS = [
 SPECIALS = [0x7F, 0x80, 0xFF, 0x100, 0x130, 0x131, 0x17F, 0x1E9E, 0x212A, 0x212B, 0xD7FF, 0xD800, 0xDBFF,
             0xDC00, 0xDFFF, 0xE000, 0xFFFD, 0xFFFF, 0x10000, 0x1F600, 0x10FFFE, 0x10FFFF]
 MAXCP = 0x110000
-SIZES = {"quick": {"family": 60, "props": 40, "escapes": 3000}, "thorough": {"family": 400, "props": 10_000, "escapes": 0}}
+SIZES = {"quick": {"family": 110, "props": 40, "escapes": 3000}, "thorough": {"family": 400, "props": 10_000, "escapes": 0}}
 
 
 # ----------------------------------------------------------------------------- worker side
@@ -302,11 +302,45 @@ def family_strategy():
                          ("range", "[", "]"), ("range", "\\", "^"), ("range", "+", "-"), ("range", "\U00010000", "\U0001FFFF")]),
         st.builds(lambda c, n: rng_(c, chr(min(ord(c) + n, MAXCP - 1))), chars, st.integers(0, 40)),
     )
+    def related(base, kind, d1, d2):
+        """A second range related to `base`: nested, overlapping, adjacent, same start / end, containing."""
+        lo, hi = ord(base[1]), ord(base[2])
+        clamp = lambda x: max(0, min(MAXCP - 1, x))  # noqa: E731
+        if kind == "nested":
+            a, b = lo + d1, hi - d2
+        elif kind == "overlap-right":
+            a, b = lo + d1, hi + d2
+        elif kind == "overlap-left":
+            a, b = lo - d1, hi - d2
+        elif kind == "adjacent":
+            a, b = hi + 1, hi + 1 + d1
+        elif kind == "same-start":
+            a, b = lo, hi - d2
+        elif kind == "same-end":
+            a, b = lo + d1, hi
+        else:  # containing
+            a, b = lo - d1, hi + d2
+        a, b = clamp(a), clamp(b)
+        if a > b:
+            a, b = b, a
+        if 0xD800 <= a < 0xE000 or 0xD800 <= b < 0xE000:
+            a, b = 0x61, 0x63
+        return ("range", chr(a), chr(b))
+
+    wide = st.builds(lambda c, n: rng_(c, chr(min(ord(c) + n, MAXCP - 1))), st.sampled_from("!0Aaz\u00e0"), st.integers(3, 90))
+    related_pairs = st.builds(
+        lambda base, kind, d1, d2, swap, extra: ("alt", tuple(([related(base, kind, d1, d2), base] if swap else [base, related(base, kind, d1, d2)]) + extra)),
+        wide,
+        st.sampled_from(["nested", "nested", "overlap-right", "overlap-left", "adjacent", "same-start", "same-end", "containing"]),
+        st.integers(1, 5), st.integers(1, 5), st.booleans(),
+        st.lists(st.sampled_from([("str", "]"), ("str", "-"), ("str", "^"), ("str", "\\"), ("ci", "k"), ("range", "0", "9"), ("str", "m")]), max_size=2),
+    )
     lits = chars.map(lambda c: ("str", c))
     cis = st.sampled_from("abkszAKSZ").map(lambda c: ("ci", c))
     props = st.sampled_from(["LETTER", "UPPERCASE_LETTER", "NUMBER", "ASCII_DIGIT", "ASCII_ALPHA", "ASCII_HEX_DIGIT", "NEWLINE"]).map(lambda n: ("id", n))
     member = st.one_of(ranges, ranges, lits, lits, cis, props)
-    return st.one_of(member, st.lists(member, min_size=2, max_size=5).map(lambda ms: ("alt", tuple(ms))))
+    return st.one_of(member, st.lists(member, min_size=2, max_size=5).map(lambda ms: ("alt", tuple(ms))),
+                     related_pairs, related_pairs)
 
 
 def unicode_rule_names():
